@@ -218,8 +218,12 @@ def single(E, cfg):
     E.check(same(E, denote(t.items), d), 'construction-preserves-value', key='term:construct-changes-value', info=info)
     _check_normal_form(E, t, d, info)
     r = t.reciprocal()
-    E.check(same(E, denote(r.items), (1 / d[0], {k: -e for k, e in d[1].items()})), 'reciprocal', key='term:reciprocal',
-            info=info)
+    dr = (1 / d[0], {k: -e for k, e in d[1].items()})
+    E.check(same(E, denote(r.items), dr), 'reciprocal', key='term:reciprocal', info=info)
+    _check_normal_form(E, r, dr, info + ['reciprocal'])
+    E.check(r == Term([(e, -x) for e, x in items]) and r == t ** -1, 'reciprocal-equals-negated-exponents',
+            key='term:reciprocal-eq', info=info)
+    E.check(r.reciprocal() == t, 'reciprocal-involutive', key='term:reciprocal-involutive', info=info)
     for n in cfg.get('powers', (-2, 0, 1, 3)):
         p = t ** n
         _no_float(E, p.items, 'power-no-float', info + [n])
@@ -310,6 +314,14 @@ def same_key(E, cfg):
     E.check(t1 == t2, 'equal-whatever-the-item-order', key='term:same-sort-key-order', info=[a, b])
     E.check(E.hash_equal(E.hash_of(t1), E.hash_of(t2)), 'hash-equal-whatever-the-item-order', key='term:same-sort-key-order',
             info=[a, b])
+    t5 = Term(((p[a], 1), (p[b], 1), (p[b], -1)))
+    E.check(t5 == Term(((p[a], 1),)), 'repeated-element-merged-whatever-its-position', key='term:same-sort-key-merge',
+            info=[a, b])
+    t6 = Term(((p[b], 1), (p[a], 1), (p[b], -1)))
+    E.check(t6 == Term(((p[a], 1),)), 'repeated-element-merged-whatever-its-position-2', key='term:same-sort-key-merge',
+            info=[b, a])
+    E.check(len(t5.normalized().items) == 1 and len(t6.normalized().items) == 1, 'normal-form-each-element-once-same-key',
+            key='term:same-sort-key-merge', info=[a, b])
     t3 = Term(((p[a], 1), (p[b], 1), (p[c], 1)))
     t4 = Term(((p[c], 1), (p[b], 1), (p[a], 1)))
     E.check(t3 == t4, 'equal-whatever-the-item-order-3', key='term:same-sort-key-order', info=[a, b, c])
